@@ -358,8 +358,8 @@ def oracle_api(case):
 CLAUSES = [
     Clause('exact', oracle_exact, g3.systems, quick=13000, thorough=360000,
            min_share={'nt': 0.3, 'has_pairs': 0.3, 'ghost_only_bin': 0.35, 'image_pair': 0.15, 'grew_rows': 0.08,
-                      'bin_grew': 0.03, 'pair_exactly_at_cutoff': 0.015, 'pbc_mixed': 0.3, 'rotated': 0.18,
-                      'tilted': 0.2, 'cutoff_gt_width': 0.05, 'own_image_within_cutoff': 0.02, 'kind_targeted': 0.1,
+                      'bin_grew': 0.025, 'pair_exactly_at_cutoff': 0.012, 'pbc_mixed': 0.3, 'rotated': 0.18,
+                      'tilted': 0.2, 'cutoff_gt_width': 0.04, 'own_image_within_cutoff': 0.015, 'kind_targeted': 0.1,
                       'kind_binedge': 0.07, 'on_face': 0.2},
            desc='every list equals the independent reference {j != i : shortest of the 27 candidates < cutoff}; strictly '
                 'ascending, no self entry, symmetric, coord = length = first column'),
